@@ -46,6 +46,12 @@ func NewQueue[T any](opts ...options.Option[Queue[T]]) (queue *Queue[T]) {
 
 // Add inserts a new element into the queue that can be retrieved via Poll() at the specified time.
 func (t *Queue[T]) Add(value T, scheduledTime time.Time) (addedElement *QueueElement[T]) {
+	return t.add(value, scheduledTime, nil)
+}
+
+// add inserts a new element into the queue and cancels the replaced element (if there is one) in the same step: the
+// replaced element is only canceled if the new one is accepted.
+func (t *Queue[T]) add(value T, scheduledTime time.Time, replacedElement *QueueElement[T]) (addedElement *QueueElement[T]) {
 	// prevent modifications of a shutdown queue
 	if t.IsShutdown() {
 		if t.shutdownFlags.HasBits(PanicOnModificationsAfterShutdown) {
@@ -68,6 +74,11 @@ func (t *Queue[T]) Add(value T, scheduledTime time.Time) (addedElement *QueueEle
 		}
 
 		return nil
+	}
+
+	// cancel the replaced element
+	if replacedElement != nil {
+		replacedElement.cancelLocked()
 	}
 
 	// add new element
@@ -306,6 +317,11 @@ func (timedQueueElement *QueueElement[T]) tryCancel() bool {
 	timedQueueElement.timedQueue.heapMutex.Lock()
 	defer timedQueueElement.timedQueue.heapMutex.Unlock()
 
+	return timedQueueElement.cancelLocked()
+}
+
+// cancelLocked is tryCancel for callers that hold the heapMutex of the queue.
+func (timedQueueElement *QueueElement[T]) cancelLocked() bool {
 	if !timedQueueElement.state.CompareAndSwap(elementPending, elementCanceled) {
 		return false
 	}
